@@ -343,6 +343,15 @@ class Check:
             f"make -j16 {target} (full .vo build, coqc 8.16.1) && coqc {prop_file} "
             "with Print Assumptions scan; grep gate for Admitted/Axiom/..."
         )
+        # refutation witnesses (non-fatal): do the recorded findings still reproduce in the model?
+        ff = COQ / "Findings" / f"{self.pid}_refuted.v"
+        if ff.exists():
+            p = sh(["timeout", "600", "coqc"] + QFLAGS + [str(ff)], cwd=COQ, timeout=630)
+            names = re.findall(r"^\s*Theorem\s+(\w+)", ff.read_text(), flags=re.M)
+            self.cov["refutation_witnesses"] = {"file": str(ff.relative_to(VERIF)), "theorems": names,
+                                                "status": "reproduce" if p.returncode == 0 else "no longer compile (finding does not reproduce in the model)"}
+            if p.returncode != 0:
+                self.notes.append("Findings file no longer compiles: " + p.stdout[-300:])
         if extract:
             ok, lg = build_modelrun()
             if not ok:
